@@ -44,7 +44,10 @@ CLAIMED = {
              "and after all accesses under release/acquire: RACounter). Tied to the code by replaying every distinct trace of real "
              "pipelines of instrumented functors/values (4 sources x 4 endings x 3 attach modes x 3 functor kinds per step, producer "
              "racing the consumer; exhaustive for one step) through Own.run and comparing counts; the harness oracle checks instance "
-             "construction/destruction balance, use-after-destruction and allocation balance at quiescence on every execution; the "
+             "construction/destruction balance, use-after-destruction and allocation balance at quiescence on every execution, and reports "
+             "any instrumented object used or destroyed inside a block released during the execution (released blocks are poisoned and "
+             "kept); oracle-only families cover SharedFuture sources and unwrapping steps whose inner future is still pending and is "
+             "completed by a third fiber; every DFS suite runs with the fiber switch offered before and after each operation; the "
              "thorough tier repeats under ASan/UBSan.",
         design="DESIGN.md §5 C03, §10",
         technique="Coq invariant proofs over lifetime/ownership models + trace correspondence + sanitizer-backed exploration",
@@ -90,7 +93,9 @@ CLAIMED = {
              "Result stored as is, flatten of Future/SharedFuture/Task however built, at most once in order), plus typing soundness. "
              "Tied to the code by running the same typed programs on the real library through a generated table of all 1404 then-cells "
              "and 300 run-cells and comparing final Result and ordered (callback, argument) lists with core_run/seq_eval inside Coq "
-             "(32k programs quick / 495k thorough), with an in-process oracle written from the property text.",
+             "(39k programs quick / 512k thorough), with an in-process oracle written from the property text. Payloads are move-marking "
+             "(a moved-from value or error reads -7777, a moved-from exception_ptr is reported), and a case form shares one SharedFuture "
+             "between two successive pipelines and direct reads (theorem c02_shared_handle_same_result_for_every_user).",
         design="DESIGN.md §5 C02, §10",
         technique="Coq refinement proof between two executable semantics + program correspondence over a generated instantiation table",
         note="Trusted: Coq kernel + vm_compute; tools/gen_pipeline_table.py and checks/pipelib.py (program printers), the harness "
@@ -149,7 +154,9 @@ CLAIMED = {
              "holding a reference, never underflows, freed exactly once after all accesses; Ready()/await_ready true implies readable (proved "
              "for the readiness rule and thresholds READ FROM THE SOURCE by a translator, with a refutation witness for the old rule). Tied to "
              "the code by replaying event by event in Coq every distinct trace of the real code (exhaustive DFS for 1+1 fibers x <= 2 ops and "
-             "1+2 x 1 op incl. a spurious weak-CAS failure; preemption-bounded DFS for 1+2 x 2 ops; seeded random for 1+3..4 x <= 4 ops).",
+             "1+2 x 1 op incl. a spurious weak-CAS failure; preemption-bounded DFS for 1+2 x 2 ops; seeded random for 1+3..4 x <= 4 ops; "
+             "every DFS suite with the fiber switch offered before and after each operation; the op alphabet includes co_await and a "
+             "continuation of another future returning this SharedFuture so that the library unwraps it).",
         design="DESIGN.md §5 C06, §10",
         technique="Coq invariant proof (all schedules, unbounded copies) + translator for readiness rule/thresholds + exhaustive/bounded/random trace correspondence",
         note="Trusted: as C01, plus checks/c06_translate.py. Not modelled: promise-side Connect/Share, SharedCore::Retire, When*/Join on "
@@ -166,7 +173,7 @@ CLAIMED = {
              "reads the stored value; SetImpl never dereferences the sentinel; OneShotEvent alone: released only after Set. Tied to the code "
              "by replaying in Coq every distinct trace of the real WaitGroup/OneShotEvent (exhaustive DFS for one waiter of each kind vs the "
              "final Done/Set, timed waiters for several deadlines, two pushers with spurious weak-CAS failures, Attach/Consume vs the producer; "
-             "seeded random for 3 workers + 3 mixed waiters + futures; thorough tier also under ASan).",
+             "seeded random for 3 workers + 3 mixed waiters + futures; thorough tier also under ASan). One Attach/Consume call for several futures is counted by one Add before the first registration (batch operations proved as runs of unit steps, replayed from real multi-future calls racing producers).",
         design="DESIGN.md §5 C16, §10",
         technique="Coq invariant proof over an executable LTS (per-waiter boolean invariant + frame lemma) + exhaustive/random trace correspondence + ASan",
         note="Trusted: as C01. Partial: OneShotEvent::Call/Reset, multi-future or NeedAdd=false Attach/Consume and counter wrap-around are outside "
@@ -216,7 +223,9 @@ CLAIMED = {
              "for all n>=2), zero for Wait/WaitFor/WaitUntil, Get, Strand::Submit(job) and co_await on futures. Tied to the code by exact "
              "program correspondence in the shipped configurations B and BC: counting operator new, typed cell table (1092 then / 126 "
              "detach / 180 run cells, variadic forms n=1..64), every program's blocks, steps, callbacks, final state and per-API-call "
-             "block multiset equal to the model evaluated in Coq; independent oracle from the property text.",
+             "block multiset equal to the model evaluated in Coq; independent oracle from the property text. A second family of handle types "
+             "with heap-owning value/error payloads (copy allocates, move does not) runs the whole cell table: theorem "
+             "c20_payload_not_copied and a strict oracle (zero payload copies on plain-future pipelines).",
         design="DESIGN.md §5 C20, §10",
         technique="Coq proofs over an executable allocation model + exact program correspondence with a counting operator new (B, BC)",
         note="Trusted: Coq kernel + vm_compute; the two printers in checks/c20.py; harness/h_c20.cpp (new-replacement, interpreter, step "
@@ -262,7 +271,9 @@ CLAIMED = {
              "await_ready true only with a published Result. The readiness rule and PromiseType::Impl are read from the source on every run "
              "(old rule refuted by a witness that is the pre-fix library's own trace). Tied to the code by coroutines interpreting generated "
              "co_await lists on the real library (FIBER; also without symmetric transfer and under ASan): every distinct trace of the "
-             "exhaustive small configurations and of seeded random mixes is replayed through the model in Coq with equal observables.",
+             "exhaustive small configurations and of seeded random mixes is replayed through the model in Coq with equal observables "
+             "(fiber switch offered before and after each operation; awaited cores bound to the AwaitOn target executor and completed from "
+             "outside it, hard-stopped executors; oracle: submitted exactly once to the executor named).",
         design="DESIGN.md §5 C13, §10",
         technique="Coq invariant proof over an executable thread-explicit LTS + source-derived readiness/hand-over rules + exhaustive/random trace correspondence",
         note="Trusted: Coq kernel + vm_compute; checks/c13_translate.py, c13_map.py; harness oracle; hooks and FIBER backend. Not modelled: "
